@@ -159,7 +159,7 @@ static Outcome evaluate(const Json &plan, bool verbose = false) {
     if (pid == 0) {
         close(pfd[0]);
         if (!verbose) dup2(efd, 2);
-        alarm(60);
+        alarm(H->time_limit(plan.get("plan")));
         Ctx c; c.prop = plan.gets("property", O.prop); c.verbose = verbose;
         H->exec(plan.get("plan"), c);
         std::string t = outcome_json(c).str();
@@ -398,13 +398,13 @@ static void worker_loop(int w, int W, uint64_t start_k, uint64_t total, Slot *sl
         slot->inflight.store(idx + 1);
         Json plan = gen_plan(idx);
         Ctx c; c.prop = O.prop; c.pin_slot = slot->pin; c.pin_slot_size = sizeof slot->pin;
-        alarm(120);
+        alarm(2 * H->time_limit(plan));
         H->exec(plan, c);
         alarm(0);
         ++evaluations; execs += c.execs ? c.execs : 1; steps += c.steps; faults += c.faults_fired;
         if (H->nontrivial(c)) { ++nontrivial; dt->insert(c.fp); }
         // in-process determinism gate on a sample of runs
-        if (idx < 200 || (idx & 1023) == 0) {
+        if ((idx < 200 || (idx & 1023) == 0) && H->time_limit(plan) <= 60) {
             Ctx c2; c2.prop = O.prop;
             // counters must not be double counted: snapshot / restore
             std::vector<uint64_t> snap = counters().val;
@@ -703,6 +703,10 @@ static int run_batch() {
         cov["probes"] = pj;
         Json zp = Json::arr(); for (auto &z : zero_probes) zp.push(z);
         cov["probes_at_zero"] = zp;
+        if (!zero_probes.empty() && R.evaluations >= 100000) {   // a coverage hole, not a verdict: said aloud so that it is not overlooked
+            std::string l; for (auto &z : zero_probes) l += " " + z;
+            printf("sim: NOTE coverage probes that never fired in this batch:%s\n", l.c_str());
+        }
         cov["counters"] = cj;
         Json sj = Json::obj();
         for (auto &p : R.states) sj[p.first] = (long long)p.second.size();
